@@ -163,10 +163,12 @@ class C15(core.Check):
         """every connection delivers exactly the events its own bytes dispatch (a drop discards the unfinished line and
         event); last event id and retry are the stream's own when it sets them, else the ones carried over"""
         bad = []
-        cut, whole, client = obs
+        cut, whole, client, client2 = obs
         if cut != whole:
             bad.append("fragmented-differs-from-whole")
-        if hp.has_escape((cut, whole)) or client[0] is not None:
+        if client != client2:         # the same reads, the end of each stream in the pass of its last read vs a pass later
+            bad.append("client-result-depends-on-where-eof-falls")
+        if hp.has_escape((cut, whole)) or client[0] is not None or client2[0] is not None:
             bad.append("exception-escaped")
             return bad
         leid, retry = None, 100
